@@ -232,7 +232,13 @@ def load_known(prop_id: str):
         return {}
     with open(p) as fh:
         d = json.load(fh)
-    return {f["mechanism"]: f for f in d.get("findings", []) if f["property"] == prop_id}
+    out = {}
+    for f in d.get("findings", []):
+        if f["property"] != prop_id:
+            continue
+        for m in f.get("mechanisms", []) or [f["mechanism"]]:
+            out[m] = f
+    return out
 
 
 def run_check(prop_id: str, tier: str, seed: int, replay_path: str | None = None) -> int:
@@ -309,8 +315,13 @@ def run_check(prop_id: str, tier: str, seed: int, replay_path: str | None = None
         listed = {m: c for m, c in vcounts.items() if m in known}
         unlisted = {m: c for m, c in vcounts.items() if m not in known}
         rc = 0
+        by_finding: dict = {}
         for m, c in sorted(listed.items()):
-            print(f"KNOWN-FINDING: property={prop_id} {known[m]['id']} mechanism={m} observed={c} :: {known[m]['what']}")
+            by_finding.setdefault(known[m]["id"], []).append((m, c))
+        for fid, lst in sorted(by_finding.items()):
+            f = next(known[m] for m, _ in lst)
+            obs = ", ".join(f"{m}x{c}" for m, c in lst)
+            print(f"KNOWN-FINDING: property={prop_id} {fid} {f['what'][:300]} [observed: {obs}]")
         if unlisted:
             rc = 1
             rdir = os.path.join(VERIF, "replays", prop_id)
